@@ -570,6 +570,27 @@ class Repo:
         }
 
 
+def is_noise(s: ast.stmt) -> bool:
+    """statements that cannot affect what a function computes: docstrings, bare constants, logging/print calls,
+    assignments to `_`, pass"""
+    if isinstance(s, ast.Pass):
+        return True
+    if isinstance(s, ast.Expr):
+        if isinstance(s.value, ast.Constant):
+            return True
+        if isinstance(s.value, ast.Call):
+            d = dotted(s.value.func) or ""
+            if d == "print" or d.split(".")[0] in ("logging", "logger", "log", "warnings") :
+                return True
+    if isinstance(s, ast.Assign) and len(s.targets) == 1 and isinstance(s.targets[0], ast.Name) and s.targets[0].id == "_":
+        return True
+    return False
+
+
+def real_body(stmts) -> List[ast.stmt]:
+    return [s for s in stmts if not is_noise(s)]
+
+
 def iter_module_stmts(tree: ast.Module) -> Iterator[ast.stmt]:
     """module-level statements, looking through if/try at module level."""
     todo = list(tree.body)
